@@ -9,6 +9,7 @@ import (
 	"errors"
 	"fmt"
 	"os"
+	"sort"
 	"strconv"
 	"strings"
 	"testing"
@@ -42,18 +43,18 @@ const (
 )
 
 type ctl struct {
-	gid      int64
-	armed    bool
-	kind     faultKind
-	k        int // position: the fault fires before the k-th call (0-based) of the op goroutine
-	n        int // calls seen so far
-	names    []string
-	isDB     []bool
-	fired    bool
-	firedAt  string
-	dead     bool
-	failing  bool
-	occ      map[string]int
+	gid     int64
+	armed   bool
+	kind    faultKind
+	k       int // position: the fault fires before the k-th call (0-based) of the op goroutine
+	n       int // calls seen so far
+	names   []string
+	isDB    []bool
+	fired   bool
+	firedAt string
+	dead    bool
+	failing bool
+	occ     map[string]int
 }
 
 var errInjected = errors.New("MARKER-STORAGE-FAULT injected by harness")
@@ -119,25 +120,26 @@ func install(w *world.World, c *ctl) {
 // ---------------------------------------------------------------- set-ups and operations
 
 type variant struct {
-	NIn   int  `json:"n_in"`
-	Fee   uint `json:"fee_ppk"`
-	Extra bool `json:"extra_content"`
+	NIn   int    `json:"n_in"`
+	Fee   uint   `json:"fee_ppk"`
+	Extra bool   `json:"extra_content"`
 	Seed  uint64 `json:"seed"`
 }
 
 type env struct {
-	w       *world.World
-	v       variant
-	inputs  cashu.Proofs
-	inVal   uint64
-	outs    []world.Out
-	mintQ   *world.MMintQuote
-	meltQ   *world.MMeltQuote
-	mintQ2  *world.MMintQuote
-	preSigned []string
-	preSpent  []string
+	w             *world.World
+	v             variant
+	inputs        cashu.Proofs
+	inVal         uint64
+	outs          []world.Out
+	mintQ         *world.MMintQuote
+	meltQ         *world.MMeltQuote
+	mintQ2        *world.MMintQuote
+	preSigned     []string
+	preSpent      []string
 	keysetsBefore string
-	resolveTo bool
+	listedBefore  string
+	resolveTo     bool
 }
 
 func fund(t *testing.T, w *world.World, amounts []uint64) {
@@ -182,7 +184,18 @@ func newEnv(t *testing.T, v variant) *env {
 		e.preSpent = append(e.preSpent, p.Y)
 	}
 	e.keysetsBefore = keysetString(w)
+	e.listedBefore = listedString(w)
 	return e
+}
+
+// listedString renders what the running mint reports about its keysets (id, fee), ordered by id.
+func listedString(w *world.World) string {
+	var l []string
+	for _, k := range w.Mint.ListKeysets().Keysets {
+		l = append(l, fmt.Sprintf("%s/%d", k.Id, k.InputFeePpk))
+	}
+	sort.Strings(l)
+	return strings.Join(l, ",")
 }
 
 func keysetString(w *world.World) string {
@@ -720,6 +733,9 @@ func execute(t *testing.T, op opSpec, v variant, kind faultKind, k int) (fs []fi
 	}
 	if op.name != "rotate_keyset" && keysetString(w) != e.keysetsBefore {
 		rep("keysets_changed", "before %s after %s", e.keysetsBefore, keysetString(w))
+	}
+	if op.name != "rotate_keyset" && listedString(w) != e.listedBefore {
+		rep("reported_keysets_changed_after_restart", "before %s after %s", e.listedBefore, listedString(w))
 	}
 	return fs, names, isDB
 }
